@@ -348,6 +348,33 @@ def rule_force_is_constant(ctx, crate, rule="R-FORCE-IS-CONSTANT"):
                       "a non-constant force flag is the caller's own flag, forwarded",
                       "the force flag passed to %s is computed from the bar's state (%s): redraws bypass the limiter depending on position/length/…" % (K.meth(c.path), state_dep[:3]), cfg)
     ctx.floor(rule, n, 8, cfg, "calls of BarState::draw / MultiState::draw")
+    # The two forwarding functions may escalate their flag before asking drawable(): the enumerated escalations are "the bar is
+    # finished" (BarState::draw; R-FINISHED-DRAWS-FORCED needs it) and "printed text is waiting" (MultiState::draw: a println must not
+    # be dropped). Anything else the flag depends on - by data or through the tests that select a constant for it - lets ordinary
+    # requests bypass the limiter in some state of the bars (seed C05k: while a dropped bar heads the ordering).
+    ALLOWED = {"multi::MultiState::draw": {("multi::MultiState", "orphan_lines"), ("multi::MultiState", "draw_target")},
+               "state::BarState::draw": {("state::BarState", "state"), ("state::ProgressState", "status")}}
+    OWN = ("multi::MultiState", "multi::MultiStateMember", "state::BarState", "state::ProgressState", "draw_target::DrawState", "style::ProgressStyle")
+    m = 0
+    for fn, allowed in sorted(ALLOWED.items()):
+        f = crate.body(fn)
+        if not f:
+            continue
+        for c in f.calls(K.PDT_DRAWABLE):
+            m += 1
+            sls = [f.slice_args(c, [1])]
+            for d in list(sls[0].defs):
+                if d.get("kind") == "assign" and d["rv"]["k"] == "use" and d["rv"]["op"].get("k") == "const" and isinstance(d["rv"]["op"].get("v"), bool):
+                    for sb, t in f.switches():
+                        if any(f.edge_dominates((sb, x), d["bb"]) for x in f.succ(sb)) and not f.dominates(d["bb"], c.bb):
+                            sls.append(f.slice_switch(sb))
+            dep = sorted({"%s.%s" % (a.rsplit("::", 1)[-1], n_) for sl in sls for a, n_ in sl.fields() if a in OWN and (a, n_) not in allowed} |
+                         {k.path for sl in sls for k in sl.calls if k.path.startswith(("state::ProgressState::", "state::BarState::", "multi::MultiState::"))
+                          and not k.matches(r"state::ProgressState::is_finished", r"multi::MultiState::width")})
+            ctx.check(not dep, rule, "escalations:%s" % K.meth(fn), f.name, c.loc(),
+                      "the flag handed to drawable() is the caller's flag, escalated only by the enumerated conditions (finished bar / pending printed text)",
+                      "the force flag handed to drawable() in %s also depends on %s: ordinary redraw requests bypass the refresh-rate limiter while that holds" % (K.meth(fn), dep[:4]), cfg)
+    ctx.floor(rule, m, 2, cfg, "drawable() calls in the forwarding functions")
 
 
 INSTANT_TYS = ("std::time::Instant", "web_time::Instant")
